@@ -5,7 +5,8 @@ import wire
 from wire import mk_fmt, cells
 from props.common import guarded, canon_cells_list, reply_fmt_list, PALETTE
 from props.widthenv import (ALPHA3, wc, env_fields, text_of, cut_layouts, self_check, realize, shared_variants,
-                            shared_case_fields, pool_size, pool_object, safe_oracle, safe_impl, limit_memory, BIG, HUGE, long_text)
+                            shared_case_fields, pool_size, pool_object, safe_oracle, safe_impl, limit_memory, BIG, HUGE, long_text, budgeted, DidNotReturn,
+                            over_budget)
 from curtsies.formatstring import Chunk, fmtstr
 
 PROP = "C11"
@@ -318,7 +319,7 @@ def outcome(c):
     k = id(c)
     if k not in _LINES:
         try:
-            _LINES[k] = ("lines", run_impl(c))
+            _LINES[k] = ("lines", budgeted(lambda: run_impl(c), sum(len(t) for t, _ in c["f"]), inside=in_quantifier(c)))
         except Exception as e:  # noqa: BLE001
             _LINES[k] = ("raised", e)
     return _LINES[k]
@@ -333,6 +334,8 @@ def _oracle(c):
     columns = c["columns"]
     kind, lines = outcome(c)
     if kind == "raised":
+        if isinstance(lines, DidNotReturn):
+            return "width_aware_splitlines did not finish within %s s (the unchanged code needs milliseconds)" % lines.seconds
         return "raised %s" % type(lines).__name__
     if any(k in c for k in ("pre", "build", "pool", "inter")) or len(cs) <= 4:
         w = observe_rendering(lines, deep="pre" in c)
@@ -401,6 +404,8 @@ def check(ctx):
     tagged = [(c, "columns=%d" % c["columns"]) for c in cases] + [(c, "extra-" + c["op"]) for c in extra]
     BATCH = 40000        # the real code runs ONCE per case (outcome()); batches bound the memory held between tie and oracle
     for i in range(0, len(tagged), BATCH):
+        if over_budget(ctx):
+            break
         batch = tagged[i:i + BATCH]
         everything = [c for c, _ in batch]
         inside = [c for c in everything if in_quantifier(c)]
